@@ -86,6 +86,8 @@ def check(run: Run):
         run.notes.append("detailed TinyLFU model (admission window + SLRU, sketch choice nondeterministic) accepted all %d tinylfu runs" % len(keep))
     # 4. code -> spec on the repository's own tests: every cache they build, validated against the same trace specification
     repo_tests_part(run, ["github.com/godaddy/asherah/go/appencryption/pkg/cache", "github.com/godaddy/asherah/go/appencryption"])
+    # 5. concurrent callers: linearisability (after everything else: it switches the build to the sched overlay)
+    conc_part(run)
     return run.finish(
         "model_checking",
         "TLC explores Cache.tla for caps 1..%d x {lru,lfu,slru} x expiry on/off up to %d calls over 3 keys x 2 values; every transition is replayed on the real cache (sync+async) and compared (result, callbacks, size); plus seeded long runs of the real cache for all four policies at capacities on both sides of the tinylfu window / sync thresholds, validated by TLC; plus every cache built by the repository's own tests (pkg/cache and the SDK package) recorded through the tracing overlay and validated by TLC. non-trivial = transition that evicts/expires/hits/deletes, or run with >= 1 callback" % (4 if q else 6, 5 if q else 7),
@@ -101,6 +103,16 @@ def len_init(g):
 
 def replay(run: Run, finding):
     case = finding.get("case")
+    if isinstance(case, dict) and case.get("conc"):
+        run.spec_files("Cache.tla", "CacheConcTrace.tla")
+        pth = os.path.join(run.work, "trace.ndjson")
+        with open(pth, "w") as f:
+            for e in case["trace"]:
+                f.write(json.dumps(e) + "\n")
+        consts = {"Keys": tla_set(["k1", "k2", "k3"]), "Vals": "{1,2,3}", "MaxOps": 0, "MaxT": 0, "Configs": "{}"}
+        rej = validate_traces(run, "CacheConcTrace.tla", consts, ["HighWater", "SizeBound", "Structure"], pth, "replay", max_reject=1)
+        print("recorded schedule: " + ("not linearisable (rejected at %s)" % json.dumps(rej[0]["event"])[:300] if rej else "accepted"))
+        return 1 if rej else 0
     if isinstance(case, dict) and "trace" in case:
         run.spec_files("Cache.tla", "CacheTrace.tla")
         with open(os.path.join(run.work, "trace.ndjson"), "w") as f:
@@ -174,6 +186,26 @@ def repo_tests_part(run, packages):
                              "case": {"reset": rs, "seed": run.seed, "trace": x["trace"]}})
     run.notes.append("repository tests under the tracing overlay (%s): %d caches recorded, %d validated by TLC, %d cut out (expiring cache on the wall clock)" % (
         " ".join(x.rsplit("/", 2)[-1] if x.endswith("...") else x.rsplit("/", 1)[-1] for x in packages), len(runs), run.traces_validated - tv, aborted))
+
+
+def conc_part(run):
+    """C15 under concurrency: goroutines operating on one real cache under the cooperative scheduler; every schedule must be
+    linearisable with respect to Cache.tla (CacheConcTrace.tla: call / ret events, silent linearisation steps)."""
+    run.vdrv(sched=True)
+    binary = run.gobin("concdrv")
+    run.spec_files("Cache.tla", "CacheConcTrace.tla")
+    trace = os.path.join(run.work, "trace.ndjson")
+    res = run.drv(["-cacheconc", str(450 if run.quick else 6000), "-seed", str(run.seed), "-trace", trace], timeout=1500, binary=binary)
+    run.absorb(res)
+    consts = {"Keys": tla_set(["k1", "k2", "k3"]), "Vals": "{1,2,3}", "MaxOps": 0, "MaxT": 0, "Configs": "{}"}
+    rej = validate_traces(run, "CacheConcTrace.tla", consts, ["HighWater", "SizeBound", "Structure"], trace, "cache-conc", max_reject=4, chunk_runs=400)
+    for x in rej:
+        rs, e = x["reset"], x["event"]
+        run.findings.append({"kind": "not-linearisable policy=%s cap=%s workers=%s at=%s" % (rs.get("policy"), rs.get("cap"), rs.get("workers"), e.get("e")),
+                             "detail": "no choice of linearisation points makes the concurrent run a behaviour of Cache.tla: %s: %s; run: %s" % (
+                                 x["why"], json.dumps(e)[:300], json.dumps([y for y in x["trace"] if y.get("e") in ("call", "ret", "tick", "final")])[:900]),
+                             "case": {"conc": True, "trace": x["trace"]}})
+    run.notes.append("concurrent cache: %d schedules (%d with a preemption) linearised by TLC" % (res["evaluations"], res.get("distinct_nontrivial", 0)))
 
 
 def drop_aborted(path):
